@@ -1235,3 +1235,87 @@ Proof.
     by (destruct Ha as [<-|[<-|[<-|[<-|[]]]]]; reflexivity).
   rewrite Ht. exact (stage_on_demand _ _ _ _ _ Ha Hr).
 Qed.
+
+(* ------------------- the order given: a directive sees what the earlier ones did *)
+
+(* running a list = running its first part, then the rest in the state (and
+   with the log) the first part left; a failure stops the list *)
+Lemma steps_app step l1 : forall l2 fs lg,
+  steps step (l1 ++ l2) fs lg =
+  if h_ok (steps step l1 fs lg)
+  then steps step l2 (h_fs (steps step l1 fs lg)) (h_log (steps step l1 fs lg))
+  else steps step l1 fs lg.
+Proof.
+  induction l1 as [|d l1 IH]; intros l2 fs lg; [reflexivity|].
+  cbn [app steps]. destruct (step d fs) as [fs1 e|fs1 e|fs1].
+  - apply IH.
+  - apply IH.
+  - reflexivity.
+Qed.
+
+(* unpacking: files that are not members keep their content ... *)
+Lemma untar_keeps m : forall fs fs' q, untar m fs = Some fs' -> ~ In q (map fst m) ->
+  file_at q fs' = file_at q fs.
+Proof.
+  induction m as [|[p z] m IH]; intros fs fs' q H Hq; [injection H as <-; reflexivity|].
+  cbn [untar] in H. destruct (mkdir_p (parent p) fs) as [fs1|] eqn:Em; [|discriminate].
+  destruct (is_dir p fs1 || negb (is_dir (parent p) fs1)); [discriminate|].
+  rewrite (IH _ _ q H); [|intro Hin; apply Hq; right; exact Hin].
+  rewrite file_at_set_neq; [exact (mkdir_p_file_at _ _ _ Em q)|].
+  intro Heq. apply Hq. left. symmetry. exact Heq.
+Qed.
+
+(* ... and every member is there with its content *)
+Lemma untar_members m : forall fs fs', untar m fs = Some fs' -> NoDup (map fst m) ->
+  forall p z, In (p, z) m -> file_at p fs' = Some (Plain z).
+Proof.
+  induction m as [|[p0 z0] m IH]; intros fs fs' H Hnd p z Hin; [contradiction|].
+  cbn [untar] in H. destruct (mkdir_p (parent p0) fs) as [fs1|] eqn:Em; [|discriminate].
+  destruct (is_dir p0 fs1 || negb (is_dir (parent p0) fs1)); [discriminate|].
+  cbn [map fst] in Hnd. inversion Hnd as [|x xs Hnotin Hnd']; subst.
+  destruct Hin as [Heq|Hin].
+  - injection Heq as <- <-. rewrite (untar_keeps _ _ _ _ H Hnotin). apply file_at_set_eq.
+  - exact (IH _ _ H Hnd' p z Hin).
+Qed.
+
+(* a TARBALL directive unpacks the task's tarball where it stands in the list:
+   right after it every member is in place -- so a later directive of the same
+   list can use it *)
+Lemma tarball_in_place t d fs fs' e :
+  agent_in_step t d fs = Ok fs' e -> action_eqb (s_act d) Tarball = true ->
+  exists m, file_at (sandbox_path t ++ [tar_name t]) fs = Some (Tar m) /\
+            (NoDup (map fst m) -> forall p z, In (p, z) m -> file_at p fs' = Some (Plain z)).
+Proof.
+  unfold agent_in_step. intros H Ht.
+  destruct (complete_url (agent_ctx (t_sb t)) (s_src d)) as [|s]; [discriminate|].
+  destruct (complete_url (agent_ctx (t_sb t)) (agent_fix_tgt (s_src d) (s_tgt d) fs)) as [|g]; [discriminate|].
+  destruct (has_action [Copy; Link; Move] d && negb (r_schema g =? "file")); [discriminate|].
+  rewrite Ht in H.
+  destruct (file_at (sandbox_path t ++ [tar_name t]) fs) as [[z|m]|] eqn:Ef; try discriminate.
+  destruct (untar m fs) as [fs2|] eqn:Eu; [|discriminate].
+  injection H as <- _. exists m. split; [reflexivity|].
+  intros Hnd p z Hin. exact (untar_members m fs fs2 Eu Hnd p z Hin).
+Qed.
+
+(* the chain: TARBALL, then any transfer/copy/link/move of a member that is
+   ready in the state the TARBALL directive left *)
+Lemma tarball_then_use t d d2 s g z fs fs1 e m :
+  agent_in_step t d fs = Ok fs1 e -> action_eqb (s_act d) Tarball = true ->
+  file_at (sandbox_path t ++ [tar_name t]) fs = Some (Tar m) -> NoDup (map fst m) -> In (r_comps s, z) m ->
+  complete_url (agent_ctx (t_sb t)) (s_src d2) = inr s ->
+  complete_url (agent_ctx (t_sb t)) (agent_fix_tgt (s_src d2) (s_tgt d2) fs1) = inr g ->
+  r_schema g = "file" -> In (s_act d2) staged_actions ->
+  (file_at (r_comps s) fs1 = Some (Plain z) -> ready_file s g (Plain z) fs1) ->
+  exists fs2, h_ok (steps (agent_in_step t) [d; d2] fs []) = true /\
+              h_fs (steps (agent_in_step t) [d; d2] fs []) = fs2 /\
+              file_at (r_comps g) fs2 = Some (Plain z).
+Proof.
+  intros H1 Ht Hf Hnd Hin Hs Hg Hsg Ha Hready.
+  destruct (tarball_in_place _ _ _ _ _ H1 Ht) as [m' [Hf' Hm]].
+  rewrite Hf in Hf'. injection Hf' as <-.
+  pose proof (Hm Hnd _ _ Hin) as Hz.
+  destruct (agent_in_on_demand t d2 s g (Plain z) fs1 Hs Hg Hsg Ha (Hready Hz)) as [fs2 [H2 Hc]].
+  exists fs2. cbn [steps]. rewrite H1, Ht, H2.
+  assert (Ht2 : action_eqb (s_act d2) Tarball = false) by (destruct Ha as [<-|[<-|[<-|[<-|[]]]]]; reflexivity).
+  rewrite Ht2. cbn [h_ok h_fs]. auto.
+Qed.
